@@ -300,6 +300,69 @@ def run_case(seed):
     return out
 
 
+def reused_selection_case(seed):
+    """a library pipeline that reuses ONE selection list for its colander steps: strain the original (one requested
+    name does not exist yet), cook that field, strain the cooked plotfile with the same list object - each result
+    must be what the pure operations give for the list as the caller wrote it"""
+    from amr_kitchen.colander.colander import Colander
+    from amr_kitchen.chef import Chef
+    rng = random.Random(seed)
+    out = dict(evals=0, keys=[core.khash(seed, 'reused-selection')], dist={'case=one selection list reused by the colander steps of a chain': 1},
+               samples=[], violations=[], disagreements=[])
+    pf0 = gen.gen_plotfile(rng, ndims=rng.choice([2, 3]) if False else 3, max_blocks=2, nfields=(2, 4), nlevels=rng.choice([1, 2]),
+                           payload=rng.choice(['ints', 'random']))
+    pf0.fields = [f.replace(' ', '_') for f in pf0.fields]
+    keys = c01.reader_keys(pf0.fields)
+    root = core.scratch_dir(f"c14r_{seed}")
+    os.makedirs(root)
+    p0 = os.path.join(root, 'plt00000')
+    diskimg.write_image(diskimg.image_of(pf0), p0)
+    new_name = 'twice'
+    order = rng.sample(keys, rng.randint(1, len(keys)))
+    order.insert(rng.randrange(len(order) + 1), new_name)       # the not-yet-existing name anywhere in the list
+    wanted = list(order)                                         # ONE list object for every colander step
+    rpath = os.path.join(root, 'recipe.py')
+    with open(rpath, 'w') as f:
+        f.write(c11.RECIPES[1][2].format(a=keys[0], b=keys[0], n0=new_name, n1='', n2=''))
+    fn = c11.load_recipe(rpath)
+    desc = dict(seed=seed, case_fn='reused_selection_case', selection=order, fields0=keys, meta=pf0.meta)
+    steps = []
+    limit = pf0.nlevels - 1
+
+    def check(tag, outp, want):
+        try:
+            bad = contents_match(oracle.contents_of_image(oracle.read_image(outp)), want)
+        except (ValueError, IndexError, KeyError) as e:
+            bad = f'output is not a well-formed plotfile: {e}'
+        if not bad:
+            v, detail = tc.impl_taste(outp, None, (True, True, False, True), True)
+            if v != 'good':
+                bad = f'validation does not accept the result: {v} {detail}'
+        return bad and f"{tag}: {bad}"
+    # step 1: strain the original
+    o1 = os.path.join(root, 's1')
+    res = core.outcome(lambda: Colander(plotfile=p0, limit_level=None, output=o1, variables=wanted).strain())
+    out['evals'] += 1
+    bad = ('step 1 (colander) raised: ' + res[1]) if res[0] != 'ok' else check('step 1 (colander)', o1, pure_colander(pf0, order, limit))
+    # step 2: cook the new field, keeping everything
+    if not bad:
+        o2 = os.path.join(root, 'cooked')
+        res = core.outcome(lambda: Chef(plotfile=p0, recipe=rpath, outfile=o2, kept_fields=' '.join(keys), serial=True).cook())
+        out['evals'] += 1
+        cooked, _ = pure_chef(pf0, fn, [new_name], ' '.join(keys))
+        bad = ('step 2 (chef) raised: ' + res[1]) if res[0] != 'ok' else check('step 2 (chef)', o2, cooked)
+    # step 3: strain the cooked plotfile with the SAME list object
+    if not bad:
+        o3 = os.path.join(root, 's3')
+        res = core.outcome(lambda: Colander(plotfile=o2, limit_level=None, output=o3, variables=wanted).strain())
+        out['evals'] += 1
+        bad = ('step 3 (colander) raised: ' + res[1]) if res[0] != 'ok' else \
+            check('step 3 (colander, same selection list as step 1)', o3, pure_colander(cooked, order, limit))
+    if bad:
+        out['violations'].append(dict(desc, kind='wrong-output', what=bad))
+    return out
+
+
 def builtin_chain_case(seed):
     """the pipeline the property names, with a BUILT-IN recipe: cook a thermochemical field keeping temperature and some
     mass fractions, then combine the cooked plotfile back into the original.  The cooked plotfile holds the kept
@@ -407,6 +470,10 @@ def _with_layout(rng, pf):
     return p
 
 
+def two_dirs_combine(seed):
+    return core.two_dirs_case(PID, 'combine', seed)
+
+
 def run(tier, seed):
     rep = core.Report(PID, tier, seed)
     pg = core.proof_gate(PID, thorough=(tier == 'thorough'))
@@ -419,7 +486,11 @@ def run(tier, seed):
     cases = [seed * 100000 + 14000 + i for i in range(ncases)]
     for r in core.run_cases(run_case, core.with_corpus(PID, cases)):
         rep.merge(r)
+    for r in core.run_cases(reused_selection_case, [seed * 100000 + 14950 + i for i in range(4 if tier == 'quick' else 40)]):
+        rep.merge(r)
     for r in core.run_cases(builtin_chain_case, [seed * 100000 + 14900 + i for i in range(6 if tier == 'quick' else 60)]):
+        rep.merge(r)
+    for r in core.run_cases(two_dirs_combine, [seed * 100000 + 99000 + i for i in range(1 if tier == 'quick' else 5)]):
         rep.merge(r)
     rep.obligation('correspondence: the composition of the extracted writer models (colander, combine, chef), each fed the previous '
                    "model's output image, = the directory written by the tool chain after every hop",
@@ -443,7 +514,8 @@ def run(tier, seed):
 
 def replay(doc):
     core.worker_init(core.REPO, quiet=False)
-    r = builtin_chain_case(doc['seed']) if doc.get('case_fn') == 'builtin_chain_case' else run_case(doc['seed'])
+    r = (builtin_chain_case(doc['seed']) if doc.get('case_fn') == 'builtin_chain_case' else
+         reused_selection_case(doc['seed']) if doc.get('case_fn') == 'reused_selection_case' else run_case(doc['seed']))
     bad = r['violations'] + r['disagreements']
     for v in bad:
         print('REPLAY:', v.get('what'))
